@@ -91,6 +91,31 @@ def apiShard (m : Meta) (numShards : Nat) : Option Int :=
     | _ => some (-1)
 
 
+
+/-- the ONE shard the API reads a metric from, chutil: `shard = meta.Metric.Shard(byMetricShards)` when
+    meta.Sharded(), then `if shard >= shardMax { shard = -1 }`; none = all shards are asked (-1) -/
+def apiReadShard (m : Meta) (count nShards : Nat) : Option Nat :=
+  if apiSharded m then
+    match apiShard m count with
+    | some s => if 0 ≤ s ∧ s < (nShards : Int) then some s.toNat else none
+    | none => none
+  else none
+
+/-- which number Agent.shard compares the primary shard with: `uint32(len(s.Shards))` (the code) or the by-metric
+    count that was just passed to sharding.Shard (a variant kept to show that the two are not interchangeable) -/
+inductive OverflowBound
+  | shards
+  | byMetric
+  deriving DecidableEq, Repr
+
+def agentShardOfV (v : OverflowBound) (m : Meta) (raw : Nat × Bool) (count nShards : Nat) : AgentShard :=
+  if overflow raw (match v with | .shards => nShards | .byMetric => count) then
+    { shard1 := 0, ok := false, shard2 := secondary m 0 nShards }
+  else { shard1 := raw.1, ok := true, shard2 := secondary m raw.1 nShards }
+
+def agentShardV (v : OverflowBound) (m : Meta) (keyMetric : Int) (hash count nShards : Nat) : Option AgentShard :=
+  (shardRaw m keyMetric hash count).map (fun raw => agentShardOfV v m raw count nShards)
+
 /-! ### the hashed part of a key: data_model.Key.MarshalAppend / Key.XXHash -/
 
 /-- data_model.Key (Tags are int32, STags byte strings; both arrays have format.MaxTags entries in Go, any length here) -/
